@@ -209,7 +209,7 @@ Section PL.
     Coh V g0 [] n -> WRes V g0 [] n t -> is_inner V n ->
     let n' := fst (wstore V big skip newv [] n) in
     let g0' := with_entries V g0 newv (snd (wstore V big skip newv [] n)) in
-    Res V g0' [] (SRef newv) t /\ Coh V g0' [] n' /\ enc_child V n' = SRef newv /\
+    Res V g0' [] (SRef newv) t /\ Coh V g0' [] n' /\ WRes V g0' [] n' t /\ enc_child V n' = SRef newv /\
     (forall q b, g0' q newv = Some b -> lookup V q (snd (wstore V big skip newv [] n)) = Some b).
   Proof.
     intros Fresh HC HW Hin n' g0'.
@@ -226,7 +226,7 @@ Section PL.
     { unfold n'. destruct n; cbn in Hin; try contradiction.
       - rewrite wstore_short. destruct (if is_dirty_inner V n then _ else _). cbn. reflexivity.
       - rewrite wstore_full. cbn. reflexivity. }
-    split; [|split; [exact C1|split; [exact Cl|]]].
+    split; [|split; [exact C1|split; [exact W1|split; [exact Cl|]]]].
     - destruct (coh_enc V g0' [] n' t W1 C1) as [_ E2]. rewrite Cl in E2. exact E2.
     - intros q b H. unfold g0', with_entries in H.
       rewrite (proj2 (ver_eqb_eq newv newv) eq_refl) in H. destruct (lookup V q es); auto.
@@ -285,6 +285,75 @@ Section PL.
   Definition derived (g : getter) (chain : list (ver * node)) (n : wnode) : Prop :=
     forall q w r, WTop [] n q w r -> match chain with [] => False | vt :: _ => exists b, RR V g (fst vt) q w b end.
 
+  (* The general form, for any store (pruned or not): `Old` is any set of stored nodes that contains every clean node and
+     reference of the working trie, is closed under what resolving them follows, resolves, and does not contain a node
+     of version newv.  No freshness of newv is needed beyond that: the commit only changes what the reader answers at
+     version newv, and the new root refers to newv only at the paths it writes. *)
+  Theorem wstore_general (s : store) name newv big skip n t (Old : list nat -> ver -> snode -> Prop) :
+    (forall q w b, Old q w b -> w <> newv /\ sget V s name q w = Some b) ->
+    (forall q w b q1 w1 b1, Old q w b -> Reach V (sget V s name) q b q1 w1 b1 -> Old q1 w1 b1) ->
+    (forall q w b, Old q w b -> exists t', Res V (sget V s name) q b t') ->
+    (forall q w r, WTop [] n q w r -> exists b, Old q w b) ->
+    Coh V (sget V s name) [] n -> WRes V (sget V s name) [] n t -> is_inner V n ->
+    let es := snd (wstore V big skip newv [] n) in
+    let n' := fst (wstore V big skip newv [] n) in
+    let g' := sget V (commit V s name newv es) name in
+    Res V g' [] (SRef newv) t /\ Coh V g' [] n' /\ WRes V g' [] n' t /\
+    (forall q w b, Reach V g' [] (SRef newv) q w b ->
+       (w = newv /\ lookup V q es = Some b /\ blob_ok V b) \/ Old q w b).
+  Proof.
+    intros O1 Old_cl O3 Hder' HC HW Hin es n' g'.
+    set (g := sget V s name) in *.
+    set (g0 := fun p w => if ver_eqb w newv then None else g p w).
+    assert (Old_ne : forall q w b, Old q w b -> w <> newv) by (intros q w b O; apply (O1 q w b O)).
+    assert (Old_get : forall q w b, Old q w b -> g0 q w = Some b /\ g q w = Some b).
+    { intros q w b O. destruct (O1 q w b O) as [Hn E]. split; auto. unfold g0. rewrite ver_eqb_false by auto. exact E. }
+    destruct (coh_wres_transfer g g0 Old Old_get Old_cl [] n t HW HC Hder') as [HW0 HC0].
+    assert (Fresh0 : forall p, g0 p newv = None).
+    { intros p. unfold g0. rewrite (proj2 (ver_eqb_eq newv newv) eq_refl). reflexivity. }
+    destruct (wstore_reads_back_g g0 newv big skip n t Fresh0 HC0 HW0 Hin) as [R0 [C0' [W0' [Cl Hlk]]]].
+    fold es in R0, C0', W0', Hlk. fold n' in C0', W0', Cl.
+    set (g0' := with_entries V g0 newv es) in *.
+    (* the store after the commit answers everything g0' answers *)
+    assert (S2 : sub V g0' g').
+    { intros p w b H. unfold g'. rewrite sget_commit. unfold g0', with_entries in H. unfold with_entries.
+      destruct (ver_eqb w newv) eqn:E.
+      - destruct (lookup V p es); auto. apply ver_eqb_eq in E. subst. rewrite Fresh0 in H. discriminate.
+      - unfold g0 in H. rewrite E in H. exact H. }
+    assert (Hag : forall q w b, Reach V g0' [] (SRef newv) q w b -> g' q w = Some b).
+    { intros q w b R. apply S2. eapply Reach_get; eauto. }
+    destruct (resolution_transfer V g0' g' [] (SRef newv) t R0 Hag) as [T1 [T2 _]].
+    split; [exact T1|split; [eapply Coh_mono; eauto|split; [eapply WRes_mono; eauto|]]].
+    intros q w b R. apply T2 in R.
+    assert (NoRef : forall q0, ~ WTop [] n' q0 newv true).
+    { intros q0 T. destruct (wstore_wtop big skip newv g0 [] n HC0 _ _ _ T) as [[_ X]|X]; [discriminate|].
+      destruct (Hder' _ _ _ X) as [b0 O]. apply (Old_ne _ _ _ O). reflexivity. }
+    rewrite <- Cl in R.
+    destruct (coh_follow g0' newv [] n' C0' NoRef q w b R) as [[q0 [w0 [b0 [r [T [Hne [Hg Hor]]]]]]]|[E [m [Cm [Im Eb]]]]].
+    - (* below, or at, a clean node the trie had before *)
+      right.
+      destruct (wstore_wtop big skip newv g0 [] n HC0 _ _ _ T) as [[X _]|X]; [contradiction|].
+      destruct (Hder' _ _ _ X) as [b0' O].
+      assert (Eb : b0' = b0).
+      { destruct (Old_get _ _ _ O) as [E0 _]. unfold g0', with_entries in Hg. rewrite ver_eqb_false in Hg by auto.
+        rewrite E0 in Hg. inversion Hg; auto. }
+      subst b0'.
+      destruct Hor as [[-> [-> ->]]|Rb]; auto.
+      apply (Old_cl q0 w0 b0); auto.
+      (* the sub-resolution below an old node is the same through g0' and g *)
+      destruct (O3 _ _ _ O) as [t' Ht'].
+      assert (Hag' : forall q1 w1 b1, Reach V g q0 b0 q1 w1 b1 -> g0' q1 w1 = Some b1).
+      { intros q1 w1 b1 R1. unfold g0', with_entries.
+        assert (O1' : Old q1 w1 b1) by (eapply Old_cl; eauto).
+        rewrite ver_eqb_false by (eapply Old_ne; eauto). apply (Old_get _ _ _ O1'). }
+      destruct (resolution_transfer V g g0' q0 b0 t' Ht' Hag') as [_ [T2' _]].
+      apply T2'. exact Rb.
+    - (* written by this commit *)
+      left. subst w. split; [reflexivity|]. split.
+      + apply Hlk. eapply Reach_get; eauto.
+      + subst b. eapply coh_blob_ok; eauto.
+  Qed.
+
   Theorem wstore_links (s : store) name chain P newv big skip n t :
     Inv V s name chain P -> hist_fresh V s name newv -> (P <= fst newv)%N ->
     match chain with [] => True | vt :: _ => (fst (fst vt) < fst newv)%N end ->
@@ -296,68 +365,18 @@ Section PL.
     intros HI Hfr HP Hlt HC HW Hin Hder es.
     set (g := sget V s name) in *.
     set (Old := fun q w b => match chain with [] => False | vt :: _ => RR V g (fst vt) q w b end).
-    set (g0 := fun p w => if ver_eqb w newv then None else g p w).
     assert (Old_ne : forall q w b, Old q w b -> w <> newv).
     { intros q w b O. unfold Old in O. destruct chain as [|vt chain]; [contradiction|].
       apply (followed_not_fresh V s name (vt :: chain) P newv HI Hfr HP vt (or_introl eq_refl) q w b O). }
-    assert (Old_get : forall q w b, Old q w b -> g0 q w = Some b /\ g q w = Some b).
-    { intros q w b O. assert (E : g q w = Some b).
-      { unfold Old in O. destruct chain; [contradiction|]. eapply Reach_get; eauto. }
-      split; auto. unfold g0. rewrite ver_eqb_false by (eapply Old_ne; eauto). exact E. }
-    assert (Old_cl : forall q w b q1 w1 b1, Old q w b -> Reach V g q b q1 w1 b1 -> Old q1 w1 b1).
-    { intros q w b q1 w1 b1 O R. unfold Old in *. destruct chain; [contradiction|]. eapply Reach_trans; eauto. }
-    assert (Hder' : forall q w r, WTop [] n q w r -> exists b, Old q w b).
-    { intros q w r T. specialize (Hder q w r T). unfold Old. destruct chain; [contradiction|]. exact Hder. }
-    destruct (coh_wres_transfer g g0 Old Old_get Old_cl [] n t HW HC Hder') as [HW0 HC0].
-    assert (Fresh0 : forall p, g0 p newv = None).
-    { intros p. unfold g0. rewrite (proj2 (ver_eqb_eq newv newv) eq_refl). reflexivity. }
-    destruct (wstore_reads_back_g g0 newv big skip n t Fresh0 HC0 HW0 Hin) as [R0 [C0' [Cl Hlk]]].
-    fold es in R0, C0', Hlk.
-    set (n' := fst (wstore V big skip newv [] n)) in *.
-    set (g0' := with_entries V g0 newv es) in *.
-    set (s' := commit V s name newv es).
-    (* the store after the commit answers everything g0' answers *)
-    assert (S2 : sub V g0' (sget V s' name)).
-    { intros p w b H. unfold s'. rewrite sget_commit. unfold g0', with_entries in H. unfold with_entries.
-      destruct (ver_eqb w newv) eqn:E.
-      - destruct (lookup V p es); auto. apply ver_eqb_eq in E. subst. rewrite Fresh0 in H. discriminate.
-      - unfold g0 in H. rewrite E in H. exact H. }
-    assert (Hag : forall q w b, Reach V g0' [] (SRef newv) q w b -> sget V s' name q w = Some b).
-    { intros q w b R. apply S2. eapply Reach_get; eauto. }
-    destruct (resolution_transfer V g0' (sget V s' name) [] (SRef newv) t R0 Hag) as [T1 [T2 _]].
-    split; [|exact T1].
-    (* the link condition *)
-    intros q w b R. apply T2 in R. fold g.
-    assert (NoRef : forall q0, ~ WTop [] n' q0 newv true).
-    { intros q0 T. destruct (wstore_wtop big skip newv g0 [] n HC0 _ _ _ T) as [[_ X]|X]; [discriminate|].
-      destruct (Hder' _ _ _ X) as [b0 O]. apply (Old_ne _ _ _ O). reflexivity. }
-    rewrite <- Cl in R.
-    destruct (coh_follow g0' newv [] n' C0' NoRef q w b R) as [[q0 [w0 [b0 [r [T [Hne [Hg Hor]]]]]]]|[E [m [Cm [Im Eb]]]]].
-    - (* below, or at, a clean node the trie had before: a node of the parent root *)
-      right.
-      destruct (wstore_wtop big skip newv g0 [] n HC0 _ _ _ T) as [[X _]|X]; [contradiction|].
-      destruct (Hder' _ _ _ X) as [b0' O].
-      assert (Eb : b0' = b0).
-      { destruct (Old_get _ _ _ O) as [E0 _]. unfold g0', with_entries in Hg. rewrite ver_eqb_false in Hg by auto.
-        rewrite E0 in Hg. inversion Hg; auto. }
-      subst b0'.
-      assert (Oq : Old q w b).
-      { destruct Hor as [[-> [-> ->]]|Rb]; auto.
-        apply (Old_cl q0 w0 b0); auto.
-        (* the sub-resolution below an old node is the same through g0' and g *)
-        unfold Old in O. destruct chain as [|vt chain]; [contradiction|].
-        destruct HI as [_ [HF _]]. rewrite Forall_forall in HF. destruct (HF vt (or_introl eq_refl)) as [HRv _].
-        assert (Hag' : forall q1 w1 b1, Reach V g [] (SRef (fst vt)) q1 w1 b1 -> g0' q1 w1 = Some b1).
-        { intros q1 w1 b1 R1. unfold g0', with_entries.
-          assert (O1 : Old q1 w1 b1) by exact R1.
-          rewrite ver_eqb_false by (eapply Old_ne; eauto). apply (Old_get _ _ _ O1). }
-        destruct (resolution_transfer V g g0' [] (SRef (fst vt)) (snd vt) HRv Hag') as [_ [_ T3]].
-        apply (T3 q0 w0 b0 q w b O). exact Rb. }
-      split; [eapply Old_ne; eauto|exact Oq].
-    - (* written by this commit *)
-      left. subst w. split; [reflexivity|]. split.
-      + apply Hlk. eapply Reach_get; eauto.
-      + subst b. eapply coh_blob_ok; eauto.
+    destruct (wstore_general s name newv big skip n t Old) as [HR [_ [_ HL]]]; auto.
+    - intros q w b O. split; [eapply Old_ne; eauto|]. unfold Old in O. destruct chain; [contradiction|]. eapply Reach_get; eauto.
+    - intros q w b q1 w1 b1 O R. unfold Old in *. destruct chain; [contradiction|]. eapply Reach_trans; eauto.
+    - intros q w b O. unfold Old in O. destruct chain as [|vt chain]; [contradiction|].
+      destruct HI as [_ [HF _]]. rewrite Forall_forall in HF. destruct (HF vt (or_introl eq_refl)) as [HRv _].
+      eapply Res_sub; eauto.
+    - intros q w r T. specialize (Hder q w r T). unfold Old. destruct chain; [contradiction|]. exact Hder.
+    - split; [|exact HR]. intros q w b R. destruct (HL q w b R) as [X|O]; [left; exact X|right].
+      split; [eapply Old_ne; eauto|exact O].
   Qed.
 
   (* ---------------------------------------------------------------- histories *)
@@ -484,5 +503,54 @@ Section PL.
     destruct (prune_round_preserves name s newer anchor older P base target cps f nodes v t) as [R1 R2]; auto.
     destruct (Res_expand V _ _ _ _ R1) as [f1 E1]. destruct (Res_expand V _ _ _ _ R2) as [f2 E2].
     exists (Nat.max f1 f2). intros f' Hf. split; [apply E1|apply E2]; lia.
+  Qed.
+  (* ---------------------------------------------------------------- any store, pruned or not *)
+  (* commit_preserves_roots without a freshness premise on the reader: a commit of (name, v) changes what the reader
+     answers only at version v of trie name, so every root that does not follow a node of that version — any root of
+     another trie, and any root of this trie whose followed nodes have other versions — resolves to the same trie, with
+     the same fuel *)
+  Theorem commit_preserves_roots_any f (s : store) name v es name' v' t :
+    open_root V f s name' v' = Some t ->
+    name' <> name \/ (forall q w b, Reach V (sget V s name') [] (SRef v') q w b -> w <> v) ->
+    open_root V f (commit V s name v es) name' v' = Some t.
+  Proof.
+    intros H Hc. unfold open_root in *. apply (expand_agree V f (sget V s name')); auto.
+    intros q w b R.
+    assert (Hne : name <> name' \/ w <> v) by (destruct Hc as [Hc|Hc]; [left; congruence|right; eapply Hc; eauto]).
+    destruct (commit_other_agrees V s name v es name' q w Hne) as [E _]. rewrite E. eapply Reach_get; eauto.
+  Qed.
+
+  (* caches: a cache that agrees with the store on the nodes a root follows is invisible for that root ... *)
+  Theorem cache_invisible_on_followed f (cache g : getter) p n t :
+    expand V f g p n = Some t ->
+    (forall q w b b', Reach V g p n q w b -> cache q w = Some b' -> b' = b) ->
+    expand V f (cached_get V cache g) p n = Some t.
+  Proof.
+    intros H Hc. apply (expand_agree V f g); auto.
+    intros q w b R. unfold cached_get. destruct (cache q w) as [b'|] eqn:E.
+    - f_equal. eapply Hc; eauto.
+    - eapply Reach_get; eauto.
+  Qed.
+
+  (* ... in particular a cache filled before a pruner round (coherent with the store then, and not flushed by the round —
+     the real node cache survives the round and may still hold deleted hist nodes) is invisible for every live root after it *)
+  Theorem cache_survives_round name s newer anchor older P base target cps f nodes (cache : getter) v t :
+    History name s (newer ++ anchor :: older) P ->
+    (P <= base)%N -> (base <= target)%N -> (base mod hf V s = 0)%N -> (target mod hf V s = 0)%N ->
+    Forall (fun vt => (target <= fst (fst vt))%N) newer -> (fst (fst anchor) < target)%N ->
+    checkpoint_nodes V f s name (fst anchor) base = Some nodes ->
+    cps_for V name cps nodes ->
+    cache_coherent V cache (sget V s name) ->
+    In (v, t) (live_after V name newer anchor) ->
+    Res V (cached_get V cache (sget V (prune V s cps base target) name)) [] (SRef v) t.
+  Proof.
+    intros H HPb Hbt Hab Hat Hnew Hanc Hit Hcps Hcoh Hin.
+    pose proof (History_Inv _ _ _ _ H) as HI.
+    assert (HR : Res V (sget V s name) [] (SRef v) t).
+    { destruct (prune_round_preserves name s newer anchor older P base target cps f nodes v t) as [R1 _]; auto. }
+    destruct (resolution_transfer V (sget V s name) (cached_get V cache (sget V (prune V s cps base target) name)) [] (SRef v) t HR) as [T _]; auto.
+    intros q w b R. unfold cached_get. destruct (cache q w) as [b'|] eqn:E.
+    - pose proof (Hcoh q w b' E) as X. pose proof (Reach_get V _ _ _ _ _ _ R) as Y. congruence.
+    - apply (prune_agrees V s name P base target cps newer anchor older f nodes HI HPb Hbt Hab Hat Hnew Hanc Hit Hcps (v, t) Hin q w b R).
   Qed.
 End PL.
